@@ -492,6 +492,39 @@ ScaleContract(e) ==
             Fl("work_linear_in_dag_size", e.res # "ok" \/ e.callbacks <= e.K * e.nodes + e.slack) \o
             Fl("pushes_bounded_by_edges", e.res # "ok" \/ e.exp <= e.K * (e.edges + 1) + e.slack), <<>>, -1)
 
+\* ------------------------------------------------------------------ huge constants (C01 / C02 / C07 / C09)
+(***************************************************************************)
+(* Arithmetic on constants beyond 32 bits.  a, b, out.z are integers         *)
+(* [neg, mag] (decimal digits, least significant first), qa, qb, out.q       *)
+(* rationals [n, d]; out.k = "int" | "real" | "bool" | "other" is what the    *)
+(* code returned for op(a, b) (simplify, and get_value with the operands      *)
+(* bound to symbols), txt = the numerals of the SMT-LIB text of the term in   *)
+(* order of appearance (sign applied), back = whether parsing that text        *)
+(* returned the very same object.                                             *)
+(***************************************************************************)
+BN == INSTANCE BigNat
+BigArithContract(e) ==
+    LET isInt == e.sort = "Int"
+        zexp == CASE e.op = "plus" -> BN!ZAdd(e.a, e.b) [] e.op = "minus" -> BN!ZSub(e.a, e.b)
+                  [] e.op = "times" -> BN!ZMul(e.a, e.b) [] e.op = "div" -> BN!ZDivMod(e.a, e.b)[1]
+                  [] OTHER -> BN!ZZero
+        qa == IF isInt THEN BN!QOfZ(e.a) ELSE BN!QMk(e.qa.n, e.qa.d)
+        qb == IF isInt THEN BN!QOfZ(e.b) ELSE BN!QMk(e.qb.n, e.qb.d)
+        qexp == CASE e.op = "plus" -> BN!QAddB(qa, qb) [] e.op = "minus" -> BN!QSubB(qa, qb)
+                  [] e.op = "times" -> BN!QMulB(qa, qb) [] e.op = "div" -> BN!QDivB(qa, qb)
+                  [] e.op = "toreal" -> qa [] OTHER -> qa
+        cmp == BN!QCmpB(qa, qb)
+        bexp == CASE e.op = "le" -> cmp <= 0 [] e.op = "lt" -> cmp < 0 [] e.op = "equals" -> cmp = 0 [] OTHER -> FALSE
+        Right(o) == IF e.op \in {"le", "lt", "equals"} THEN o.k = "bool" /\ (o.b = 1) = bexp
+                    ELSE IF isInt /\ e.op # "toreal" THEN o.k = "int" /\ o.z = zexp
+                    ELSE o.k = "real" /\ BN!QMk(o.q.n, o.q.d) = qexp /\ o.q = BN!QMk(o.q.n, o.q.d)
+    IN  IF e.res # "ok" THEN Verdict(<<"operation_failed">>, <<>>, -1)
+        ELSE Verdict(Fl("simplify_exact_on_huge_constants", Right(e.simp)) \o
+                     Fl("get_value_exact_on_huge_constants", Right(e.gv)) \o
+                     Fl("printed_numerals_are_the_constants",
+                        ~isInt \/ e.op = "toreal" \/ e.txt = <<e.a, e.b>>) \o
+                     Fl("print_parse_returns_same_object", e.back), <<>>, -1)
+
 \* ------------------------------------------------------------------ C14 / C15
 (***************************************************************************)
 (* Equality of results up to the order of commutative arguments (ACEq) and  *)
